@@ -129,18 +129,11 @@ Theorem old_size_ok_spec cs scroll anim dyn w h rawW rawH tw th :
   <-> old_doc_fits cs scroll anim dyn w h rawW rawH tw th.
 Proof.
   unfold old_size_ok, old_doc_fits.
-  destruct (tw <? rawW) eqn:E0; [apply Z.ltb_lt in E0|apply Z.ltb_ge in E0];
-    destruct (th <? rawH) eqn:E3; [apply Z.ltb_lt in E3|apply Z.ltb_ge in E3|apply Z.ltb_lt in E3|apply Z.ltb_ge in E3];
-    destruct (tw <? w) eqn:E1; try apply Z.ltb_lt in E1; try apply Z.ltb_ge in E1;
-    destruct (th <? h) eqn:E2; try apply Z.ltb_lt in E2; try apply Z.ltb_ge in E2;
+  destruct (tw <? rawW) eqn:E0; destruct (th <? rawH) eqn:E3;
+    destruct (tw <? w) eqn:E1; destruct (th <? h) eqn:E2;
+    rewrite ?Z.ltb_lt, ?Z.ltb_ge in *;
     destruct cs, scroll, anim, dyn; cbn [orb andb negb];
-    (split; [intros Hx; try discriminate;
-             (split; [lia|split; [intros; try discriminate; lia
-                                 |intros Hd Hc; try discriminate; split; [lia|intros Hs; try lia;
-                                    destruct Hs; discriminate]]])
-            |intros (X1 & X2 & X3); try reflexivity; exfalso; try lia;
-             try (specialize (X2 eq_refl); lia);
-             try (destruct (X3 eq_refl ltac:(auto)) as [Y1 Y2]; try lia; specialize (Y2 ltac:(auto)); lia)]).
+    intuition (try congruence; try lia; try (exfalso; lia)).
 Qed.
 
 Theorem old_draw_rejects_iff cs scroll anim dyn tty tw th rawW rawH ha va w h pre clear frames :
@@ -151,4 +144,105 @@ Proof.
   destruct (old_size_ok cs scroll anim dyn w h rawW rawH tw th).
   - destruct (old_resolve tw th rawW rawH). split; [discriminate|intros Hx; exfalso; apply Hx; reflexivity].
   - split; [intros _ ?; discriminate|reflexivity].
+Qed.
+
+(** the base implementation of [_clear_frame_] does nothing *)
+Lemma ClearOK_nil w h : ClearOK w h [].
+Proof.
+  intros lm' s r c (Hcl & Hs & Hr & Hc). exists []. split; [|reflexivity].
+  cbn. rewrite <- Hs, <- Hr, <- Hc. symmetry. apply mk_id.
+Qed.
+
+(** ** non-vacuity: a 2x2 render (two lines of [ECH 2, CUF 2]) padded to 3x4, animated over
+       two frames on a 10x5 screen from row 3 — the first frame scrolls the screen by two
+       lines, the final line feed by one more *)
+Definition ex_frame : list (list tok) := wez_erase_ls 2 2.
+Definition ex_stream : list tok :=
+  anim_stream true 1 1 2 [] (padded (Some GSpace) (1, 1, 0, 1) 2 2 (joinlf ex_frame)) [joinlf ex_frame].
+
+Example animate_example :
+  DrawFinal 10 5 0 0 (pos 3 0) true 3 4
+            (padded (Some GSpace) (1, 1, 0, 1) 2 2 (joinlf ex_frame)) ex_stream.
+Proof.
+  pose proof (animate_final 10 5 0 (Some GSpace) 2 2 1 1 0 1) as T.
+  specialize (T ltac:(lia) ltac:(lia) ltac:(lia) ltac:(lia) ltac:(lia) ltac:(lia) ltac:(lia)).
+  specialize (T [] (ClearOK_nil 2 2) ex_frame [ex_frame]
+                (wez_erase_lr 2 2 ltac:(lia) ltac:(lia)) (wez_erase_downward 2 2 ltac:(lia))).
+  specialize (T (Forall_cons _ (wez_erase_lr 2 2 ltac:(lia) ltac:(lia)) (Forall_nil _))).
+  specialize (T (pos 3 0) 0 true (okat_pos 3 0) ltac:(cbn; lia)).
+  exact T.
+Qed.
+
+Example animate_example_computed :
+  srun 10 5 0 0 (pos 3 0) ex_stream = Some 3
+  /\ row (exec 0 (pos 3 0) ex_stream) = 7 /\ col (exec 0 (pos 3 0) ex_stream) = 0
+  /\ visible (exec 0 (pos 3 0) ex_stream) = true.
+Proof. vm_compute. repeat split. Qed.
+
+(** ** the defect this check found in the old API (F5), kept as a computed counterexample:
+       the stream [_display_animated] wrote before the fix — ["\r" CSI (lines-1) A] before
+       every later frame (CSI 0 A for a one-line box: one line up) and a trailing
+       [CSI lines B] issued from the last line *)
+Definition legacy_old_anim (lines : Z) (P1 : list tok) (Ps : list (list tok)) : list tok :=
+  P1 ++ concat (map (fun P => [TCR; TCuu (lines - 1)] ++ P) Ps) ++ [TCud lines] ++ [TSgr0; TLF].
+
+Example legacy_one_line_box_climbs_and_overshoots :
+  let P := [TChar GSpace; TChar GSpace] in
+  let t' := exec 0 (pos 5 0) (legacy_old_anim 1 P [P; P]) in
+  (* the third frame was written on row 3, two rows above the first; the cursor ends on
+     row 5 instead of row 6 *)
+  In (EText 3 0 GSpace adefault) (log t') /\ row t' = 5.
+Proof. vm_compute. split; [tauto|reflexivity]. Qed.
+
+Example legacy_cursor_ends_too_low :
+  let P := [TChar GSpace; TLF; TChar GSpace] in
+  row (exec 0 (pos 5 0) (legacy_old_anim 2 P [P])) = 9    (* the box is rows 5-6 *)
+  /\ row (exec 0 (pos 5 0) (old_anim_stream false 2 [] [] P [P])) = 7.
+Proof. vm_compute. split; reflexivity. Qed.
+
+(** ** the loop invariant, restated without the section's parameters *)
+Theorem animate_inv lm w h pl clear :
+  0 <= pl -> ClearOK w h clear ->
+  forall (lss : list (list (list tok))) (s : term) (ra : Z),
+  Forall (LinesRect all_cells w h) lss -> okat s ra (lm + pl) ->
+  exists EV : list ev,
+    (* back at the render's top-left, attributes default, protocol state clean *)
+    exec lm s (concat (map (fun ls => later_frame pl h clear (joinlf ls)) lss))
+      = mk ra (lm + pl) adefault s EV
+    (* every event within the render's rows, from the left margin to the render's right edge *)
+    /\ forallb (ev_inside ra lm h (pl + w)) EV = true
+    (* only cells of the render are written, erased or overlaid *)
+    /\ (forall r c, covered EV r c = true -> ra <= r < ra + h /\ lm + pl <= c < lm + pl + w)
+    (* every cell of the render shows the last frame *)
+    /\ (forall r c acc, ra <= r < ra + h -> lm + pl <= c < lm + pl + w ->
+          lastcov_from acc EV r c =
+          match lastopt lss with
+          | Some lsn => lastcov (flat (lm + pl) ra lsn) r c
+          | None => acc
+          end).
+Proof.
+  intros Hpl HC lss s ra HF Hok.
+  exact (later_frames_inv lm w h pl 0 0 0 Hpl clear HC lss s ra HF Hok).
+Qed.
+
+(** all five render shapes keep the downward discipline *)
+Theorem styles_downward :
+  (forall alpha kitty bgcol split (w : nat) rows,
+      (0 < w)%nat -> (forall r, In r rows -> length r = w) ->
+      forall ln, In ln (proofs.BlockRect.block_ls alpha kitty bgcol split rows) -> Downward ln)
+  /\ (forall w z mix blend pls, 0 < w ->
+        forall ln, In ln (map (model.GfxRender.kitty_line w z mix blend) pls) -> Downward ln)
+  /\ (forall w h z mix blend pl, 0 < w ->
+        forall ln, In ln (model.GfxRender.kitty_whole_ls w h z mix blend pl) -> Downward ln)
+  /\ (forall w konsole wezterm mix sps, 0 < w ->
+        forall ln, In ln (map (model.GfxRender.iterm2_line w konsole wezterm mix) sps) -> Downward ln)
+  /\ (forall w h konsole wezterm mix sp, 0 < w -> 0 < h ->
+        forall ln, In ln (model.GfxRender.iterm2_whole_ls w h konsole wezterm mix sp) -> Downward ln).
+Proof.
+  split; [|split; [|split; [|split]]].
+  - exact block_downward.
+  - intros w z mix blend pls Hw. exact (kitty_lines_downward w z mix blend Hw pls).
+  - intros w h z mix blend pl Hw. exact (kitty_whole_downward w h z mix blend Hw pl).
+  - intros w konsole wezterm mix sps Hw. exact (iterm2_lines_downward w konsole wezterm mix Hw sps).
+  - intros w h konsole wezterm mix sp Hw Hh. exact (iterm2_whole_downward w h konsole wezterm mix Hw Hh sp).
 Qed.
